@@ -55,6 +55,12 @@ theorem text_stages_total (src : Text) :
     ∃ r, preParse src = .ok r ∧ ∀ kind pos, r = .rejected kind pos → posWithin src pos = true :=
   preParse_ok src
 
+/-- the calendar arithmetic of `helpers::parse_timestamp` (table access `days_in_month[month - 2]`,
+`day - 1`, the nanosecond conversion) cannot panic whatever digits a `@YYYY-MM-DD…` literal holds
+(the grammar admits any digits; the splitting of the literal's text is not modelled) -/
+theorem timestamp_arithmetic_total (year : Int) (month day : Nat) (tod tzHours : Int) :
+    ∃ r, timestampNs year month day tod tzHours = .ok r := timestampNs_ok year month day tod tzHours
+
 /-! Witnesses of the defects repaired in `expand.rs` (the pre-fix behaviour, replayed on the model's
 primitives): `&bl[strip..]` at a non-boundary, and the range arithmetic. -/
 
@@ -71,8 +77,11 @@ theorem inclusive_max_witness :
 /-- `end - start` of the extreme range does not fit `i64`: reported as too large instead of overflowing -/
 theorem range_overflow_witness : tooLarge (-9223372036854775808) 9223372036854775807 = true := by decide
 
-example : ∃ p, checkNesting (utf8 (List.replicate 25 '(')) = .ok (some p) := ⟨24, by decide⟩
+example : ∃ p, checkNesting (utf8 (List.replicate 17 '(')) = .ok (some p) := ⟨16, by decide⟩
+example : checkNesting (utf8 (List.replicate 16 '(')) = .ok none := by decide
 example : preprocessC "fn f():\n  return 1\n".toList = .ok "fn f():\n«INDENT»return 1\n«DEDENT»".toList := by decide
 example : fromPosition "éé\nx".toList 5 = (2, 1) := by decide
+example : timestampNs 1970 1 1 3600 0 = .ok 3600000000000 := by decide
+example : timestampNs 2024 13 0 0 0 = timestampNs 2024 12 1 0 0 := by decide
 
 end Varpulis.Props.C41
